@@ -19,12 +19,14 @@ Three oracles evaluated after EVERY operation of a history on `obj.xs`:
 See DESIGN.md section 4 / C04.
 """
 import atexit
+import gc
 import operator
 import os
 import pathlib
 import shutil
 import sys
 import tempfile
+import weakref
 
 from traits.api import (
     HasTraits, List, Dict, Set, Int, Float, Str, Range, Enum, Instance, Either,
@@ -65,7 +67,18 @@ META = {
              "EvenCInt(BaseCInt), Agreed(BaseBool), ShortBytes(BaseBytes)) and the library's "
              "File(exists=True), Directory(exists=True), String(minlen,maxlen), alone, inside Tuple/Either "
              "and in nested List/Dict/Set, with argument pools rich in non-valid values of exactly the base "
-             "Python type; a separate stratum draws the set "
+             "Python type; a stratum of its own (`dflt:*`) starts from what the "
+             "DECLARATION provides instead of an assigned value: for ~75 configurations (the above plus bounded "
+             "and three-level nestings) the default is implicit, legal, convertible or illegal (shorter than "
+             "minlen -- incl. the implicit [] of a minlen>0 list --, longer than maxlen, an invalid item, an "
+             "illegal nested container, not a container), provided by the declaration, a `_xs_default` method "
+             "or a subclass override; 1-3 owners of the class (some of a subclass) materialise it by read, "
+             "trait_get, a listened / observed first assignment (old and new handed to the listener are "
+             "walked), hooking item observers, or assign-then-del (revert to the default); whatever is stored, "
+             "returned or handed out must pass the invariant walk (bound to ITS owner, at every depth), some "
+             "owners are then collected, a late sibling is created, and an ordinary 8-op history runs on a "
+             "survivor (nothing else is demanded of an illegal default: refusing the read is fine); "
+             "a separate stratum draws the set "
              "intersection operators with operands equal to, but not identical with, members (it hits "
              "an open finding and would otherwise truncate the main histories). A case is non-trivial when the "
              "operation changed the value, raised, or delivered a notification; distinct_nontrivial "
@@ -87,6 +100,21 @@ META = {
                   "falsy_owner_rejections": 5000, "truthy_flavoured_ops": 24000,
                   "equal_owner_ops": 10000, "equal_owner_foreign_args": 250, "construct_ops": 2500,
                   "construct_rejections": 900, "falsy_construct_ops": 1300, "built_with_keyword": 4500,
+                  # stratum: declared defaults / sibling owners living on one declared default
+                  "default_cases": 1600, "default_owners": 4000, "default_materialised": 2200,
+                  "default_elements_walked": 38000, "default_illegal_declared": 650,
+                  "default_illegal_refused": 1100, "default_class_implicit": 180,
+                  "default_class_implicit-short": 45, "default_class_short": 20, "default_class_long": 45,
+                  "default_class_bad-item": 200, "default_class_bad-nested": 85, "default_class_conv": 150,
+                  "default_class_valid": 500, "default_provider_method": 250, "default_provider_override": 250,
+                  "default_route_read": 1200, "default_route_trait_get": 550,
+                  "default_route_assign-listened": 550, "default_route_assign-observed": 550,
+                  "default_route_observe-items": 550, "default_route_revert": 550,
+                  "default_handed_values": 2500, "default_sibling_cases": 1100,
+                  "default_nested_shared_cases": 140, "default_owners_collected": 1300,
+                  "default_first_owner_collected": 550, "default_late_siblings": 1100,
+                  "default_subclass_owners": 800, "default_history_ops": 7000, "default_nested_ops": 600,
+                  "default_rejections_checked": 2200, "default_ops_succeeded": 4000,
                   # stratum: value-dependent refinements of the Base scalar traits as inner traits
                   "refined_history_ops": 24000, "refined_grid_cases": 4000, "refined_list_ops": 15000,
                   "refined_dict_ops": 5500, "refined_set_ops": 4000, "refined_nested_ops": 1400,
@@ -114,6 +142,23 @@ META = {
                      "equal_owner_foreign_args": 5000, "construct_ops": 50000,
                      "construct_rejections": 18000, "falsy_construct_ops": 26000,
                      "built_with_keyword": 40000,
+                     # stratum: declared defaults / sibling owners living on one declared default
+                     "default_cases": 40000, "default_owners": 100000, "default_materialised": 55000,
+                     "default_elements_walked": 950000, "default_illegal_declared": 16250,
+                     "default_illegal_refused": 27500, "default_class_implicit": 4500,
+                     "default_class_implicit-short": 1125, "default_class_short": 500,
+                     "default_class_long": 1125, "default_class_bad-item": 5000,
+                     "default_class_bad-nested": 2125, "default_class_conv": 3750,
+                     "default_class_valid": 12500, "default_provider_method": 6250,
+                     "default_provider_override": 6250, "default_route_read": 30000,
+                     "default_route_trait_get": 13750, "default_route_assign-listened": 13750,
+                     "default_route_assign-observed": 13750, "default_route_observe-items": 13750,
+                     "default_route_revert": 13750, "default_handed_values": 62500,
+                     "default_sibling_cases": 27500, "default_nested_shared_cases": 3500,
+                     "default_owners_collected": 32500, "default_first_owner_collected": 13750,
+                     "default_late_siblings": 27500, "default_subclass_owners": 20000,
+                     "default_history_ops": 175000, "default_nested_ops": 15000,
+                     "default_rejections_checked": 55000, "default_ops_succeeded": 100000,
                      "refined_history_ops": 288000, "refined_grid_cases": 4000, "refined_list_ops": 180000,
                      "refined_dict_ops": 66000, "refined_set_ops": 48000, "refined_nested_ops": 16800,
                      "refined_assign_ops": 24000, "refined_construct_ops": 9600,
@@ -401,8 +446,12 @@ def build(spec, default=None):
             kw["value"] = default
         return List(build(spec[1]), **kw)
     if t == "Dict":
+        if default is not None:
+            return Dict(build(spec[1]), build(spec[2]), value=default)
         return Dict(build(spec[1]), build(spec[2]))
     if t == "Set":
+        if default is not None:
+            return Set(build(spec[1]), value=default)
         return Set(build(spec[1]))
     raise AssertionError(spec)
 
@@ -1516,7 +1565,10 @@ def bounds_tag(spec):
 # --------------------------------------------------------------------------
 
 class History:
-    def __init__(self, ctx, spec, rng, isect=False, flavour="plain", tag=None):
+    def __init__(self, ctx, spec, rng, isect=False, flavour="plain", tag=None, cls=None, obj=None):
+        """cls / obj: an owner class declared elsewhere and an existing owner to
+        adopt (stratum of declared defaults); otherwise the configuration's
+        class and a fresh owner."""
         self.ctx = ctx
         self.tag = tag              # stratum tag: counters are also kept per stratum
         self.isect = isect
@@ -1524,7 +1576,7 @@ class History:
         self.spec = spec
         self.kind = KIND_OF[spec[0]]
         self.rng = rng
-        cls = self.cls = config_class(spec, flavour)
+        cls = self.cls = cls or config_class(spec, flavour)
         self.stale = []
         self.raw = lambda *a: LOG.append("raw")
         self.ops = []
@@ -1538,9 +1590,9 @@ class History:
         self.populate(self.other)
         # `obj`: half of the owners are built with the container as a constructor
         # keyword; flavoured owners often start from the (empty) default, i.e. falsy
-        self.obj = None
-        start_default = flavour in ("len", "bool") and rng.random() < 0.4
-        if not start_default and rng.random() < 0.5:
+        self.obj = obj
+        start_default = obj is None and flavour in ("len", "bool") and rng.random() < 0.4
+        if obj is None and not start_default and rng.random() < 0.5:
             for _ in range(3):
                 try:
                     self.obj = cls(**{NAME: gen(spec, rng, VALID)})
@@ -2038,6 +2090,289 @@ def run_grid(ctx, gi, spec, prefix="grid", maxlen=4, tag=None):
 
 
 # --------------------------------------------------------------------------
+# stratum: declared defaults, and sibling owners living on one declared default
+# --------------------------------------------------------------------------
+# Every other stratum starts from a value that went through whole-value
+# assignment.  Here the trait value is whatever the DECLARATION provides: the
+# implicit default, a default given in the declaration / by a `_xs_default`
+# method / by a subclass override -- legal, convertible, or illegal (too short,
+# too long, an invalid item, an illegal nested container, not a container at
+# all).  The statement does not say what such a declaration must do, only that
+# no trait VALUE is ever illegal: so whatever a materialisation route stores,
+# returns or hands to a listener is walked; nothing else is demanded of an
+# illegal default (refusing the read, as the library does, is fine).  Several
+# owners of one class live on the same declared default, some are collected,
+# later ones are created, and ordinary histories run on the survivors.
+
+MISSING = object()
+DEFAULT_KINDS = ("implicit", VALID, VALID, CONV, INVALID, INVALID, INVALID)
+PROVIDERS = ("declared", "declared", "declared", "method", "override")
+ROUTES = ("read", "read", "trait_get", "assign-listened", "assign-observed", "observe-items", "revert")
+DEFAULT_CONFIGS = CONFIGS + [
+    D(STR, L(INT, 0, 3)), D(STR, L(INT, 2, 3)), D(INT, L(STR, 1, 2)), D(STR, S(STR)), D(INT, D(STR, INT)),
+    D(STR, D(STR, L(INT, 0, 2))), L(L(INT, 2, 3), 1, 2), L(L(L(INT, 1, 2), 0, 2)), L(D(STR, L(INT, 1, 3))),
+    L(S(STR), 1, 2), L(INT, 2, 4), L(STR, 3, INF), L(FLOAT, 1, 2),
+]
+BASE_CLASS = {"List": list, "Dict": dict, "Set": set}
+
+
+def nested_values(spec, raw):
+    """(inner spec, value) of the container-valued positions of a raw default."""
+    if spec[0] == "Dict":
+        return [(spec[2], v) for v in raw.values()] if spec[2][0] in CONTAINER else []
+    return [(spec[1], v) for v in raw] if spec[1][0] in CONTAINER else []
+
+
+def default_tag(spec, raw):
+    """Structural class of a declared default."""
+    if raw is None:
+        return "implicit-short" if spec[0] == "List" and spec[2] > 0 else "implicit"
+    c = classify(spec, raw)
+    if c != INVALID:
+        return c
+    if not isinstance(raw, BASE_CLASS[spec[0]]):
+        return "wrong-type"
+    if spec[0] == "List" and len(raw) < spec[2]:
+        return "short"
+    if spec[0] == "List" and len(raw) > spec[3]:
+        return "long"
+    try:
+        if any(not accepts(sp, v) for sp, v in nested_values(spec, raw)):
+            return "bad-nested"
+    except TypeError:
+        pass
+    return "bad-item"
+
+
+LEGAL_TAGS = ("implicit", VALID, CONV)
+
+
+def make_default_class(spec, raw, provider, flavour):
+    if provider == "declared":
+        return make_class(build(spec, raw), flavour)
+    base = make_class(build(spec, valid_default(spec)), flavour)
+    if provider == "method":
+        class M(base):
+            def _xs_default(self):
+                return plain(raw)
+        return M
+
+    class O(base):
+        xs = plain(raw)
+    return O
+
+
+def shape_walk(spec, c, where):
+    """Legal shape of a container that WAS the trait value (handed to a
+    listener as old / new): class, bounds, items in the domain."""
+    t = spec[0]
+    if not isinstance(c, CLASS_OF[t]):
+        raise Walk("not-a-trait-container", where, c)
+    if t == "List":
+        if not spec[2] <= len(c) <= spec[3]:
+            raise Walk("length-bound-not-enforced", where, c)
+        pairs = [(spec[1], e) for e in list.__iter__(c)]
+    elif t == "Dict":
+        pairs = [(spec[1], k) for k in dict.keys(c)] + [(spec[2], v) for v in dict.values(c)]
+    else:
+        pairs = [(spec[1], e) for e in set.__iter__(c)]
+    for sp, e in pairs:
+        Counter.n += 1
+        if sp[0] in CONTAINER:
+            shape_walk(sp, e, where + ".item")
+        elif not in_domain(sp, e):
+            raise Walk("unconverted-item-stored" if accepts(sp, e) else "invalid-item-stored", where + ".item", e)
+
+
+class DefaultCase:
+    def __init__(self, ctx, spec, rng, cls, flavour, raw, tag, provider):
+        self.ctx, self.spec, self.rng, self.cls = ctx, spec, rng, cls
+        self.flavour, self.raw, self.tag, self.provider = flavour, raw, tag, provider
+        self.kind = KIND_OF[spec[0]]
+        self.sub = None
+        self.trail = []
+
+    def count(self, name, n=1):
+        self.ctx.count("default_" + name, n)
+
+    def fail(self, opname, w):
+        self.ctx.violation("%s/default-%s/%s" % (self.kind, opname, w.complaint),
+                           "%s: default-%s on %s (default %s, provided by %s); at %s: %s"
+                           % (w.complaint, opname, spec_name(self.spec), self.tag, self.provider, w.where,
+                              short(w.item)),
+                           {"config": spec_name(self.spec), "default": short(self.raw, 300),
+                            "default_class": self.tag, "provider": self.provider, "owner_flavour": self.flavour,
+                            "owners": self.trail, "where": w.where, "item": short(plain(w.item), 300)})
+        return True
+
+    def new_owner(self):
+        cls = self.cls
+        if self.rng.random() < 0.2:
+            if self.sub is None:
+                class Sub(cls):
+                    pass
+                self.sub = Sub
+            cls = self.sub
+            self.count("subclass_owners")
+        o = cls()
+        if self.flavour == "bool" and self.rng.random() < 0.5:
+            o.__dict__[READY] = True
+        return o
+
+    def judge(self, o, opname, ret=MISSING, handed=()):
+        """Walk whatever is stored in / was returned by / was handed out by `o`."""
+        self.ctx.ev()
+        Counter.n = 0
+        try:
+            stored = o.__dict__.get(NAME, MISSING)
+            if stored is not MISSING:
+                walk_container(self.spec, stored, o, NAME)
+            if ret is not MISSING and ret is not stored:
+                walk_container(self.spec, ret, o, "returned")
+            for old, new in handed:
+                for label, v in (("old", old), ("new", new)):
+                    if isinstance(v, (list, dict, set)):
+                        self.count("handed_values")
+                        shape_walk(self.spec, v, label)
+        except Walk as w:
+            return self.fail(opname, w)
+        finally:
+            self.count("elements_walked", Counter.n)
+        return False
+
+    def materialise(self, o, route, position):
+        """One route by which the declared default becomes the trait value."""
+        spec, rng = self.spec, self.rng
+        handed = []
+        ret = MISSING
+        self.trail.append("%s:%s" % (position, route))
+        self.count("owners")
+        self.count("route_" + route)
+        del LOG[:]
+        try:
+            if route == "read":
+                ret = getattr(o, NAME)
+            elif route == "trait_get":
+                ret = o.trait_get(NAME).get(NAME, MISSING)
+            elif route == "assign-listened":
+                o.on_trait_change(lambda obj, name, old, new: handed.append((old, new)), NAME)
+                setattr(o, NAME, gen(spec, rng, VALID))
+            elif route == "assign-observed":
+                o.observe(lambda e: handed.append((e.old, e.new)), NAME)
+                setattr(o, NAME, gen(spec, rng, VALID))
+            elif route == "observe-items":
+                o.observe(lambda e: None, NAME + ".items")
+                o.on_trait_change(lambda: None, NAME + "_items")
+                ret = o.__dict__.get(NAME, MISSING)
+            else:
+                # revert: a value is assigned, then deleted -- the default is the value again
+                o.on_trait_change(lambda obj, name, old, new: handed.append((old, new)), NAME)
+                setattr(o, NAME, gen(spec, rng, VALID))
+                delattr(o, NAME)
+                ret = getattr(o, NAME)
+            raised = None
+        except Exception as e:                     # noqa: BLE001
+            raised = type(e)       # (not the exception: its traceback would keep the owner alive)
+        has = NAME in o.__dict__
+        outcome = ("materialised" if has else "nothing-stored") + ("" if raised is None else "+raised")
+        if has:
+            self.count("materialised")
+        if raised is not None:
+            self.count("routes_raised")
+            if issubclass(raised, TraitError) and not has:
+                self.count("refused")
+                if self.tag not in LEGAL_TAGS:
+                    self.count("illegal_refused")
+        self.ctx.sig("default", self.kind, spec_name(self.spec), self.tag, self.provider, route, outcome, position,
+                     self.flavour)
+        return self.judge(o, route, ret, handed)
+
+    def run(self):
+        ctx, rng = self.ctx, self.rng
+        n = rng.choice((1, 2, 2, 3))
+        owners = []
+        for i in range(n):
+            o = self.new_owner()
+            if self.materialise(o, rng.choice(ROUTES), "first" if i == 0 else "sibling"):
+                return
+            owners.append(o)
+        o = None
+        if n > 1:
+            self.count("sibling_cases")
+            if self.tag in LEGAL_TAGS and self.raw is not None and nested_values(self.spec, self.raw):
+                self.count("nested_shared_cases")     # siblings on one default that holds containers
+            # some owners go away; the others live on
+            k = rng.randint(1, n - 1)
+            for i in sorted(rng.sample(range(n), k), reverse=True):
+                self.trail.append("collected:%d" % i)
+                if i == 0:
+                    self.count("first_owner_collected")
+                r = weakref.ref(owners.pop(i))
+                if r() is not None:
+                    gc.collect()
+                    self.count("gc_collections")
+                if r() is None:
+                    self.count("owners_collected")
+            for o in owners:
+                if self.judge(o, "sibling-collected"):
+                    return
+            o = self.new_owner()
+            self.count("late_siblings")
+            if self.materialise(o, rng.choice(ROUTES), "late"):
+                return
+            owners.append(o)
+        live = [o for o in owners if NAME in o.__dict__]
+        if not live:
+            return
+        # an ordinary history on one of the owners that live on the default
+        obj = rng.choice(live)
+        self.trail.append("history")
+        h = History(ctx, self.spec, rng, flavour=self.flavour, tag="default", cls=self.cls, obj=obj)
+        if NAME not in h.other.__dict__:
+            return
+        h.attach_raw()
+        for _ in range(8):
+            h.count("history_ops")
+            if h.step():
+                return
+        for o in live:
+            if o is not obj and self.judge(o, "sibling-after-history"):
+                return
+
+
+def run_defaults(ctx, nh):
+    for hno in range(nh):
+        if not ctx.mine(hno):
+            continue
+        spec = DEFAULT_CONFIGS[hno % len(DEFAULT_CONFIGS)]
+        flavour = FLAVOURS[(hno // len(DEFAULT_CONFIGS)) % len(FLAVOURS)]
+        if not ctx.begin("dflt:%d" % hno, {"config": spec_name(spec), "owner": flavour}):
+            continue
+        try:
+            rng = ctx.rng("dflt", hno)
+            kind = rng.choice(DEFAULT_KINDS)
+            provider = "declared" if kind == "implicit" else rng.choice(PROVIDERS)
+            raw = None if kind == "implicit" else gen(spec, rng, kind)
+            if raw is None and provider == "declared":
+                kind = "implicit"              # `List(T, None)` IS the implicit default
+            tag = default_tag(spec, raw) if raw is not None or kind == "implicit" else "wrong-type"
+            ctx.count("default_cases")
+            ctx.count("default_class_" + tag)
+            ctx.count("default_provider_" + provider)
+            if tag not in LEGAL_TAGS:
+                ctx.count("default_illegal_declared")
+            try:
+                cls = make_default_class(spec, raw, provider, flavour)
+            except Exception:                      # noqa: BLE001
+                # the declaration itself was refused: no value can come of it
+                ctx.count("default_declarations_refused")
+                continue
+            DefaultCase(ctx, spec, rng, cls, flavour, raw, tag, provider).run()
+        finally:
+            ctx.end()
+
+
+# --------------------------------------------------------------------------
 # self-test of the reference (oracle consistency, no traits involved)
 # --------------------------------------------------------------------------
 
@@ -2132,6 +2467,8 @@ def run(ctx):
                             "final": short(plain(getattr(h.obj, NAME)), 200)}, cap=6)
         finally:
             ctx.end()
+    # ---- stratum: declared defaults / sibling owners on one default ------------
+    run_defaults(ctx, ctx.scale(3200, 80000))
     # ---- stratum: intersection with equal-but-not-identical operands ---------
     set_cfgs = [c for c in CONFIGS if c[0] == "Set" or (c[0] == "List" and c[1][0] == "Set")
                 or (c[0] == "Dict" and c[2][0] == "Set")]
